@@ -563,3 +563,15 @@ Fixpoint format_ok (l : layout) : bool :=
 (* FlexibleLayout.__init__: ValueError when a field ends past the declared size *)
 Definition flex_new_ok (sz : Z) (fs : list (Z * (Z * layout))) : bool :=
   forallb (fun kf => fst (snd kf) + layout_size (snd (snd kf)) <=? sz) fs.
+
+(* the range / hole test at the head of Flag._missing_ *)
+Definition flag_bad (E : flagcls) (v : Z) : bool :=
+  negb ((Z.lnot (all_bits E) <=? v) && (v <=? all_bits E)) ||
+  negb (Z.land v (Z.lxor (all_bits E) (flag_mask E)) =? 0).
+
+(* a shaped Flag class used as a layout field, for the boundaries under which cls(bits) either returns the member
+   with value bits or raises (STRICT, KEEP): the enumeration leaf whose members are the accepted bit patterns *)
+Definition flag_values (E : flagcls) : list Z :=
+  filter (fun v => match py_flag_new E v with FMem m => m =? v | _ => false end)
+         (map Z.of_nat (seq 0 (Z.to_nat (2 ^ fwidth E)))).
+Definition flag_leaf (E : flagcls) (vw : bool) : layout := ELeaf (Sh (fwidth E) false) vw (flag_values E).
